@@ -223,6 +223,36 @@ def compared_only(F, h, pname):
     return True
 
 
+def code_constants(F, h):
+    """integer constants the function compares with (literals, range-pattern bounds, constant items): the cells of its parameters' domains are cut at these values,
+    so representatives are taken around each of them in addition to the calendar's own thresholds"""
+    out = set()
+
+    def f(x, parents):
+        if x.get("k") == "Lit" and isinstance(x.get("v"), int) and not isinstance(x.get("v"), bool):
+            out.add(x["v"])
+        elif x.get("k") == "Path" and x.get("res") == "def" and "Const" in (x.get("dk") or ""):
+            v = const_eval(F, x)
+            if isinstance(v, int):
+                out.add(v)
+        elif x.get("k") == "Range":
+            for b in (x.get("lo"), x.get("hi")):
+                if isinstance(b, dict) and isinstance(b.get("v"), int):
+                    out.add(b["v"])
+        elif x.get("k") == "Unary" and x.get("op") == "-":
+            v = const_eval(F, x)
+            if isinstance(v, int):
+                out.add(v)
+        return True
+    from facts import walk_hir
+    walk_hir(h["body"], f)
+    return out
+
+
+def around(consts, lo, hi):
+    return sorted({v for k in consts for v in (k - 1, k, k + 1) if lo <= v <= hi})
+
+
 def date_validity_rule(F, rep):
     r3 = rep.rule("R15.3", "date validity beyond chrono's range: years -999999999..999999999 and 1 <= day <= last day of the month (is_valid_date folded on one representative per cell)")
     # ---------------- R15.3
@@ -242,8 +272,11 @@ def date_validity_rule(F, rep):
                 if n == "last_day_of_month":
                     return ("v", "Some", [("lit", last)]) if last is not None else ("v", "None", [])
                 return None
-            for y in (-2 ** 31, -1000000000, -999999999, 0, 999999999, 1000000000, 2 ** 31 - 1):
-                for d in (0, 1, 27, 28, 29, 30, 31, 32, 255):
+            ks = code_constants(F, h)
+            years = sorted(set((-2 ** 31, -1000000000, -999999999, 0, 999999999, 1000000000, 2 ** 31 - 1)) | set(around(ks, -2 ** 31, 2 ** 31 - 1)))
+            days = sorted(set((0, 1, 27, 28, 29, 30, 31, 32, 255)) | set(around(ks, 0, 255)))
+            for y in years:
+                for d in days:
                     outs, _ = fold(F, vd, [("lit", y), ("sym", "month"), ("lit", d)], hook)
                     got = single(outs)
                     want = last is not None and -999999999 <= y <= 999999999 and 1 <= d <= last
@@ -257,7 +290,7 @@ def date_validity_rule(F, rep):
             rep.undecided(r3, "date-validity", "%s %s" % (vd, "does not fold to a boolean on %d representative(s)" % und if und else
                                                           "agrees on all representatives but uses its parameters in arithmetic, so they do not stand for all values"))
         else:
-            rep.ok(r3, "date-validity", "7 year cells x 9 days x 5 month lengths folded")
+            rep.ok(r3, "date-validity", "%d year x %d day representatives (around the calendar's and the code's own constants) x 5 month lengths folded" % (len(years), len(days)))
 
 
 def offset_rule(F, rep):
